@@ -124,7 +124,7 @@ Print Assumptions C09_set_adjust_pts.
 Theorem C09_set_pts : forall s0 ops v,
   let s := run_script s0 ops in
   let s' := run_script s0 (ops ++ [SSetPTS v]) in
-  s_pts s' = v /\ (s_cmd s = CNull \/ cmd_pts (s_cmd s') = v mod 8589934592) /\
+  s_pts s' = v mod 8589934592 /\ (s_cmd s = CNull \/ cmd_pts (s_cmd s') = v mod 8589934592) /\
   cmd_has_pts (s_cmd s') = cmd_has_pts (s_cmd s).
 Proof. exact set_pts. Qed.
 Print Assumptions C09_set_pts.
@@ -289,8 +289,7 @@ Proof. exact mid_settype_law. Qed.
 Print Assumptions C09_mid_settype.
 
 (* ALL SEQUENCES OF SETTER CALLS.  `typed_sig_op` (Proofs/ScteClosure.v): every argument within its Go type (uint8/16/32,
-   byte strings; PTS, duration, offset, tier, device-restriction arguments of ANY size, the setters truncate them; the one
-   exception is SCTE35.SetPTS, which still stores s.pts un-truncated and therefore needs v < 2^33).  `wid_sig` = the
+   byte strings; PTS, duration, offset, tier, device-restriction arguments of ANY size, the setters truncate them).  `wid_sig` = the
    value-width part of `normal`; `fits` = the rest of it: counts and lengths representable (8-bit component count, UPID and
    descriptor lengths, 10-bit section_length).  The width part is an invariant of every typed history, from CreateSCTE35 or from
    any state that has it; hence every typed history whose result fits is normal and its next encoding is canonical. *)
@@ -416,12 +415,17 @@ Example C09_order_example :
   firstn 30 (fst (update_data (expected interleaved))) = ser_section_nocrc reordered.
 Proof. exact w_order_example. Qed.
 
-(* residual: SCTE35.SetPTS keeps an over-wide argument in PTS() (the command's pts_time is truncated, the encoding carries
-   pts_adjustment 0): getter 2^33+5, decoded 5.  This is why typed_sig_op bounds the argument of SSetPTS.
-   notes/findings/C09.md proposes `s.pts = pts & gots.MaxPtsValue`. *)
-Theorem C09_set_pts_overwide_refuted :
+(* SCTE35.SetPTS (a397833; it used to keep an over-wide argument in PTS()): for ANY argument the getter, the command's
+   pts_time and the next encoding all carry v mod 2^33, with pts_adjustment 0; instance: the former witness *)
+Theorem C09_set_pts_encoded : forall fs st v, normal fs st ->
+  let st' := apply_sig_op st (SSetPTS v) in
+  s_pts st' = v mod 8589934592 /\
+  fst (update_data st') = ser_section (logical fs st') /\
+  (s_cmd st <> CNull -> cmd_pts (s_cmd st') = v mod 8589934592 /\ si_pts_adj (logical fs st') = 0).
+Proof. exact set_pts_encoded. Qed.
+Print Assumptions C09_set_pts_encoded.
+Theorem C09_set_pts_overwide :
   let st := run_script create_scte35 setpts_script in
-  s_pts st = 8589934597 /\ cmd_pts (s_cmd st) = 5 /\
-  exists sc, new_scte35 (0 :: fst (update_data st)) = Ok sc /\ s_pts sc = 5.
+  s_pts st = 5 /\ cmd_pts (s_cmd st) = 5 /\ new_scte35 (0 :: fst (update_data st)) = Ok (snd (update_data st)).
 Proof. exact w_set_pts_overwide. Qed.
-Print Assumptions C09_set_pts_overwide_refuted.
+Print Assumptions C09_set_pts_overwide.
